@@ -1181,6 +1181,22 @@ func (sk *SpaceKeeper) ConfigureByPath(paths []string, sizes []int, execPlot, ex
 		return wsiList, nil
 	}
 
+	// Make sure every directory can hold what has to be generated for it before any new
+	// space is created, so that a rejected request leaves no plot files (and no consumed
+	// wallet keys) behind in the directories handled earlier.
+	for i := range absDirs {
+		_, currentSize, finished := fillSpaceListByPathSize(absDirs[i], make([]*WorkSpace, 0), sk.getIndexedWorkSpaces(), 0, sizes[i])
+		if finished {
+			continue
+		}
+		if !sk.allowGenerateNewSpace {
+			return failureReturn(ErrWorkSpaceCannotGenerate)
+		}
+		if err := checkOSDiskSizeByPath(absDirs[i], sizes[i]-currentSize); err != nil {
+			return failureReturn(err)
+		}
+	}
+
 	for i := range absDirs {
 		var currentSize, targetSize = 0, sizes[i]
 		var finished bool
